@@ -5,6 +5,7 @@ package elasticquota
 import (
 	"context"
 	"fmt"
+	"os"
 	"sort"
 	"strings"
 	"testing"
@@ -22,14 +23,37 @@ import (
 	utilfeature "github.com/koordinator-sh/koordinator/pkg/util/feature"
 )
 
-// C01, second harness: the glue of pod_handler.go / quota_handler.go / Reserve / Unreserve.
-// One plugin instance (MultiQuotaTree on); every case uses its own quota tree id, quota names and namespace, so its
-// figures live in a GroupQuotaManager of its own (no system/default quota, like the model).  The harness calls the
-// PLUGIN entry points with API objects and emits the manager-level operation the glue is specified to perform
-// (quota-name resolution through the quota->tree map, unknown / missing quota label => default quota of the default
-// tree (not part of this tree), same ResourceVersion => ignored, cross-tree update => delete + add, OnQuotaAdd of a
-// known quota => ignored).  Observation = Plugin.GetQuotaSummaries(tree, true) + the tree's root QuotaInfo, same line
-// format as the core harness; histories are informer-consistent, so every block carries `inv 1`.
+// C01, second harness: the glue of pod_handler.go / quota_handler.go / Reserve / Unreserve / plugin_helper.go
+// (migrateDefaultQuotaGroupsPod).  One plugin instance shared by all cases.  The harness calls the PLUGIN entry points
+// with API objects and emits the manager-level operation the glue is specified to perform on the OBSERVED manager
+// (quota-name resolution through the quota->tree map, unknown / missing quota label => koordinator-default-quota of the
+// default manager, same ResourceVersion => ignored, cross-tree update => delete + add, OnQuotaAdd of a known quota =>
+// ignored, periodic migration out of the default group).  Observation = quota summaries (with pods) + the root QuotaInfo of
+// the observed manager, same line format as the core harness; histories are informer-consistent, so every block carries `inv 1`.
+//
+// Streams (by case index):
+//
+//	A  (5/8)  MultiQuotaTree on, the case's quotas carry a tree id of their own => a GroupQuotaManager without system/default
+//	          quota, like the model's `init`.  Pods that resolve to the default group live in the DEFAULT manager: not part of the
+//	          model run, but checked by a Go-only oracle (c01pWorld.oracleDefault).  Migration out of the default group is, for
+//	          the observed manager, `OnPodAdd(X, <object cached by the default group>)`  => op line `padd X <pod>`.
+//	B1 (1/4)  MultiQuotaTree on, quotas WITHOUT tree label, B2 (1/8) MultiQuotaTree off (tree label present or not): everything
+//	          lives in the default manager.  koordinator-default-quota is then part of the observed manager; the model is told about
+//	          it as an ordinary quota `dq` = 2 (parent root, leaf, lends, min 0, max 2^60 standing for the huge configured max; the
+//	          harness prints that constant as its max).  Migration = `MigratePod(<cached object>, default, X)` => `migrate 2 X <pod>`.
+//	          koordinator-system-quota never holds pods here and is not observed.
+//
+// A pod labelled with a quota that does not exist yet ("awaited" quota) is accounted in the default group, pending or bound;
+// the quota is created later and the harness calls Plugin.migrateDefaultQuotaGroupsPod directly (the function the 1 s timer
+// runs).  Every third case does this deterministically at its start (and deletes that pod, observed, at its end); every case
+// can do it at random.
+//
+// Generator restrictions that keep the unchanged tree silent (lifted by VERIF_C01P_FREE=1, see the findings in evidence):
+// while a pod is held by the default group under an awaited label, its accounting-relevant fields and its label do not
+// change; between the creation of the awaited quota and the migration call the pod is not deleted or relabelled and, when
+// the quota lives in the default manager (B), not updated at all.
+
+const c01pDMax = int64(1) << 60
 
 func c01pRL(v [2]int64) corev1.ResourceList {
 	return corev1.ResourceList{
@@ -70,7 +94,7 @@ type c01pSpec struct {
 
 type c01pPV struct {
 	id             int
-	label          int // quota label (0: none, -1: a quota that never exists)
+	label          int // quota label (0: none, -1: a quota that never exists, > 1: a quota of this case, existing or awaited)
 	req            [2]int64
 	np, node, term bool
 	rv             int
@@ -82,19 +106,35 @@ type c01pWorld struct {
 	r     *vRand
 	pl    *Plugin
 	idx   int
-	tree  string
+	tree  string // tree id of the observed manager ("" = the default manager, streams B1/B2)
+	label string // value of the quota-tree-id label on the case's quotas ("" = no label)
+	same  bool   // streams B1/B2: the case's quotas live in the default manager
+	dq    int    // model name of koordinator-default-quota when it is part of the observed manager (same), else 0
+	free  bool   // VERIF_C01P_FREE=1: no generator restrictions around the migration
 	specs map[int]*c01pSpec
 	objs  map[int]*schedv1alpha1.ElasticQuota
 	pods  map[int]*c01pPV // last delivered version of every alive pod
-	nextQ int
-	nextP int
-	fail  bool
-	lim   bool
+	// specification of the glue's bookkeeping around the default group
+	def    map[int]*c01pPV // pods the default group is specified to cache, with the object it caches (the first one it saw)
+	defAcc map[int]*c01pPV // ... and the object whose amounts it accounts (the last one routed to it)
+	home   map[int]int     // quota of this case (> 1, not dq) specified to cache the pod; 0: none
+	await  []int           // quota names handed out as pod labels, not created yet
+	nextQ  int
+	nextP  int
+	fail   bool
+	lim    bool
+	base   [2][4]int64 // figures of the default group when the case started (stream A)
+	// the snapshot taken by the last observe() (nothing is called between an observation and a freshCompare)
+	lastRoot [2][4]int64
+	lastQs   map[int]*c01pObsQ
 }
 
 func (w *c01pWorld) qname(i int) string {
 	if i == 1 {
 		return extension.RootQuotaName
+	}
+	if w.same && i == w.dq {
+		return extension.DefaultQuotaName
 	}
 	if i < 0 {
 		return fmt.Sprintf("v%dnone", w.idx)
@@ -106,8 +146,11 @@ func (w *c01pWorld) qid(name string) int {
 	if name == extension.RootQuotaName {
 		return 1
 	}
+	if name == extension.DefaultQuotaName {
+		return w.dq
+	}
 	var a, b int
-	if _, err := fmt.Sscanf(name, "v%dq%02d", &a, &b); err != nil {
+	if _, err := fmt.Sscanf(name, "v%dq%02d", &a, &b); err != nil || a != w.idx {
 		return 0
 	}
 	return b
@@ -118,7 +161,9 @@ func (w *c01pWorld) mkQuota(sp *c01pSpec) *schedv1alpha1.ElasticQuota {
 		ObjectMeta: metav1.ObjectMeta{Name: w.qname(sp.name), Namespace: "default", Annotations: map[string]string{}, Labels: map[string]string{}},
 		Spec:       schedv1alpha1.ElasticQuotaSpec{Max: c01pRL(sp.max), Min: c01pRL(sp.min)},
 	}
-	q.Labels[extension.LabelQuotaTreeID] = w.tree
+	if w.label != "" {
+		q.Labels[extension.LabelQuotaTreeID] = w.label
+	}
 	if sp.parent != 1 || w.r.Bool() { // an absent parent label means the root
 		q.Labels[extension.LabelQuotaParent] = w.qname(sp.parent)
 	}
@@ -147,13 +192,13 @@ func (w *c01pWorld) mkPod(pv *c01pPV) {
 	pv.obj = p
 }
 
-// res is the glue's specification of getPodAssociateQuotaNameAndTreeID restricted to this tree:
-// the labelled quota if the plugin knows it, otherwise 0 (the pod belongs to the default tree).
+// res is the glue's specification of getPodAssociateQuotaNameAndTreeID restricted to the observed manager:
+// the labelled quota if the plugin knows it, otherwise the default group (dq when it is observed, else 0 = not in this manager).
 func (w *c01pWorld) res(pv *c01pPV) int {
-	if pv.label > 1 && w.specs[pv.label] != nil {
+	if pv.label > 1 && pv.label != w.dq && w.specs[pv.label] != nil {
 		return pv.label
 	}
-	return 0
+	return w.dq
 }
 
 func (w *c01pWorld) toks(pv *c01pPV) string {
@@ -185,43 +230,140 @@ func (w *c01pWorld) inSubtree(root, n int) bool {
 	return false
 }
 
+// qids: the quotas of the case created through the plugin (the default group is not one of them).
+func (w *c01pWorld) qids() []int {
+	var out []int
+	for n := range w.specs {
+		if n != w.dq {
+			out = append(out, n)
+		}
+	}
+	sort.Ints(out)
+	return out
+}
+
+func (w *c01pWorld) pids() []int {
+	var out []int
+	for id := range w.pods {
+		out = append(out, id)
+	}
+	sort.Ints(out)
+	return out
+}
+
+// waiting: held by the default group under a label whose quota does not exist yet.
+func (w *c01pWorld) waiting(id int) bool {
+	d := w.def[id]
+	return d != nil && d.label > 1 && w.specs[d.label] == nil
+}
+
+// eligible: held by the default group, and the object cached there names a quota the plugin knows by now:
+// the next migrateDefaultQuotaGroupsPod takes it out of the default group.
+func (w *c01pWorld) eligible(id int) bool {
+	d := w.def[id]
+	return d != nil && d.label > 1 && d.label != w.dq && w.specs[d.label] != nil
+}
+
+func (w *c01pWorld) anyEligible() bool {
+	for id := range w.def {
+		if w.eligible(id) {
+			return true
+		}
+	}
+	return false
+}
+
+func (w *c01pWorld) canAwait() bool { return len(w.await) < 2 && len(w.qids())+len(w.await) < 6 }
+
+func (w *c01pWorld) newAwait() int {
+	f := w.nextQ
+	w.nextQ++
+	w.await = append(w.await, f)
+	return f
+}
+
+func (w *c01pWorld) dropAwait(n int) {
+	for i, f := range w.await {
+		if f == n {
+			w.await = append(w.await[:i:i], w.await[i+1:]...)
+			return
+		}
+	}
+}
+
 type c01pObsQ struct {
 	parent         int
 	isParent, lend bool
 	pods           map[int]bool
+	foreign        int // cached pods that do not belong to this case
 	d              [2][11]int64
 }
 
-func (w *c01pWorld) observe() {
-	h := w.h
-	mgr := w.pl.GetGroupQuotaManagerForTree(w.tree)
-	var root [2][4]int64
-	qs := map[int]*c01pObsQ{}
-	if mgr != nil {
-		if ri := mgr.GetQuotaInfoByName(extension.RootQuotaName); ri != nil {
-			for k := 0; k < 2; k++ {
-				root[k] = [4]int64{c01pVal(ri.GetUsed(), k), c01pVal(ri.GetNonPreemptibleUsed(), k), c01pVal(ri.GetRequest(), k), c01pVal(ri.GetNonPreemptibleRequest(), k)}
-			}
-		}
-		var sums map[string]*core.QuotaInfoSummary = w.pl.GetQuotaSummaries(w.tree, true)
-		for name, s := range sums {
-			if s.Tree != w.tree {
-				continue
-			}
-			q := &c01pObsQ{parent: w.qid(s.ParentName), isParent: s.IsParent, lend: s.AllowLentResource, pods: map[int]bool{}}
-			for key, pi := range s.PodCache {
-				var id int
-				fmt.Sscanf(key[strings.Index(key, "/p")+2:], "%d", &id)
-				q.pods[id] = pi.IsAssigned
-			}
-			for k := 0; k < 2; k++ {
-				q.d[k] = [11]int64{c01pMax(s.Max, k), c01pVal(s.Min, k), c01pVal(s.Used, k), c01pVal(s.NonPreemptibleUsed, k),
-					c01pVal(s.Request, k), c01pVal(s.NonPreemptibleRequest, k), c01pVal(s.ChildRequest, k),
-					c01pVal(s.SelfUsed, k), c01pVal(s.SelfNonPreemptibleUsed, k), c01pVal(s.SelfRequest, k), c01pVal(s.SelfNonPreemptibleRequest, k)}
-			}
-			qs[w.qid(name)] = q
+func (w *c01pWorld) mgr() *core.GroupQuotaManager {
+	if w.same {
+		return w.pl.groupQuotaManager
+	}
+	return w.pl.GetGroupQuotaManagerForTree(w.tree)
+}
+
+// snapshot projects the root QuotaInfo and the quota summaries of one manager (the live one or a fresh one).
+func (w *c01pWorld) snapshot(mgr *core.GroupQuotaManager, sums map[string]*core.QuotaInfoSummary) (root [2][4]int64, qs map[int]*c01pObsQ) {
+	qs = map[int]*c01pObsQ{}
+	if mgr == nil {
+		return
+	}
+	if ri := mgr.GetQuotaInfoByName(extension.RootQuotaName); ri != nil {
+		for k := 0; k < 2; k++ {
+			root[k] = [4]int64{c01pVal(ri.GetUsed(), k), c01pVal(ri.GetNonPreemptibleUsed(), k), c01pVal(ri.GetRequest(), k), c01pVal(ri.GetNonPreemptibleRequest(), k)}
 		}
 	}
+	prefix := fmt.Sprintf("vns%d/p", w.idx)
+	for name, s := range sums {
+		if s.Tree != w.tree {
+			continue
+		}
+		n := w.qid(name)
+		if w.same && n == 0 {
+			continue // koordinator-system-quota (never holds pods here) and nothing else: every case removes its quotas
+		}
+		q := &c01pObsQ{parent: w.qid(s.ParentName), isParent: s.IsParent, lend: s.AllowLentResource, pods: map[int]bool{}}
+		for key, pi := range s.PodCache {
+			if !strings.HasPrefix(key, prefix) {
+				q.foreign++
+				continue
+			}
+			var id int
+			fmt.Sscanf(key[len(prefix):], "%d", &id)
+			q.pods[id] = pi.IsAssigned
+		}
+		for k := 0; k < 2; k++ {
+			q.d[k] = [11]int64{c01pMax(s.Max, k), c01pVal(s.Min, k), c01pVal(s.Used, k), c01pVal(s.NonPreemptibleUsed, k),
+				c01pVal(s.Request, k), c01pVal(s.NonPreemptibleRequest, k), c01pVal(s.ChildRequest, k),
+				c01pVal(s.SelfUsed, k), c01pVal(s.SelfNonPreemptibleUsed, k), c01pVal(s.SelfRequest, k), c01pVal(s.SelfNonPreemptibleRequest, k)}
+			if w.same && n == w.dq {
+				q.d[k][0] = c01pDMax // the configured max (MaxInt64/5 cores) does not fit milli-units; the model is told 2^60
+			}
+		}
+		qs[n] = q
+	}
+	return
+}
+
+func (w *c01pWorld) live() (root [2][4]int64, qs map[int]*c01pObsQ) {
+	mgr := w.mgr()
+	var sums map[string]*core.QuotaInfoSummary
+	if mgr != nil {
+		if w.same {
+			sums = mgr.GetQuotaSummaries(true)
+		} else {
+			sums = w.pl.GetQuotaSummaries(w.tree, true)
+		}
+	}
+	return w.snapshot(mgr, sums)
+}
+
+func (w *c01pWorld) emit(root [2][4]int64, qs map[int]*c01pObsQ) {
+	h := w.h
 	for k := 0; k < 2; k++ {
 		h.Obs("root %d %d %d %d %d", k, root[k][0], root[k][1], root[k][2], root[k][3])
 	}
@@ -248,7 +390,14 @@ func (w *c01pWorld) observe() {
 	}
 	h.Obs("inv 1")
 	h.Obs("end")
+}
+
+func (w *c01pWorld) observe() {
+	root, qs := w.live()
+	w.lastRoot, w.lastQs = root, qs
+	w.emit(root, qs)
 	w.oracle(root, qs)
+	w.oracleDefault()
 }
 
 type c01pAgg struct{ selfReq, selfNp, selfUsed, selfNpUsed, child, request, limited, npReq, used, npUsed int64 }
@@ -301,17 +450,19 @@ func (w *c01pWorld) recompute(qs map[int]*c01pObsQ, n, k int, memo map[int]*c01p
 	return a
 }
 
+func (w *c01pWorld) bad(fp, f string, a ...interface{}) {
+	if !w.fail {
+		w.fail = true
+		w.h.Fail(fp, f, a...)
+	}
+}
+
 // oracle: the statement of C01 evaluated from scratch on the plugin's own report (fingerprints as in the core harness).
 func (w *c01pWorld) oracle(root [2][4]int64, qs map[int]*c01pObsQ) {
 	if w.fail {
 		return
 	}
-	bad := func(fp, f string, a ...interface{}) {
-		if !w.fail {
-			w.fail = true
-			w.h.Fail(fp, f, a...)
-		}
-	}
+	bad := w.bad
 	for n := range w.specs {
 		if qs[n] == nil {
 			bad("C01:quota-set", "quota %d was added through the plugin but is not reported for its tree", n)
@@ -324,12 +475,44 @@ func (w *c01pWorld) oracle(root [2][4]int64, qs map[int]*c01pObsQ) {
 			return
 		}
 	}
-	// pods: a pod is counted in the quota its last delivered object resolves to, and nowhere else
-	for id, pv := range w.pods {
-		for n, q := range qs {
-			_, in := q.pods[id]
-			if in && w.res(pv) != n {
+	// pods: a pod is counted in the quota its last delivered object resolves to, and nowhere else; a pod that was
+	// delivered before its quota existed is counted in the default group until the plugin's migration moved it
+	for n, q := range qs {
+		if q.foreign > 0 {
+			bad("C01:pod-membership", "quota %d caches %d pods that do not belong to this history", n, q.foreign)
+			return
+		}
+		for id := range q.pods {
+			pv := w.pods[id]
+			if pv == nil {
+				bad("C01:pod-membership", "pod %d is cached in quota %d but it was deleted through the plugin", id, n)
+				return
+			}
+			if w.same && n == w.dq {
+				if w.def[id] == nil {
+					bad("C01:pod-membership", "pod %d is cached in the default group but its last object names quota %d, which holds it", id, pv.label)
+					return
+				}
+				continue
+			}
+			if w.res(pv) != n || w.home[id] != n {
 				bad("C01:pod-membership", "pod %d is cached in quota %d but its last object names quota %d", id, n, pv.label)
+				return
+			}
+		}
+	}
+	for id := range w.pods {
+		if n := w.home[id]; n > 1 {
+			if q := qs[n]; q != nil {
+				if _, in := q.pods[id]; !in {
+					bad("C01:pod-membership", "pod %d: its last object names quota %d and the glue should have placed it there, but the quota does not cache it", id, n)
+					return
+				}
+			}
+		}
+		if w.same && w.def[id] != nil {
+			if _, in := qs[w.dq].pods[id]; !in {
+				bad("C01:pod-membership", "pod %d should still be held by the default group, which does not cache it", id)
 				return
 			}
 		}
@@ -371,6 +554,156 @@ func (w *c01pWorld) oracle(root [2][4]int64, qs map[int]*c01pObsQ) {
 	}
 }
 
+// defaultGroup reads koordinator-default-quota of the default manager: used npUsed request npRequest per dimension, and the
+// cached pods of this case (id -> assigned).
+func (w *c01pWorld) defaultGroup() (fig [2][4]int64, pods map[int]bool) {
+	pods = map[int]bool{}
+	qi := w.pl.groupQuotaManager.GetQuotaInfoByName(extension.DefaultQuotaName)
+	if qi == nil {
+		return
+	}
+	for k := 0; k < 2; k++ {
+		fig[k] = [4]int64{c01pVal(qi.GetUsed(), k), c01pVal(qi.GetNonPreemptibleUsed(), k), c01pVal(qi.GetRequest(), k), c01pVal(qi.GetNonPreemptibleRequest(), k)}
+	}
+	prefix := fmt.Sprintf("vns%d/p", w.idx)
+	for key, pod := range qi.GetPodCache() {
+		if !strings.HasPrefix(key, prefix) {
+			continue
+		}
+		var id int
+		fmt.Sscanf(key[len(prefix):], "%d", &id)
+		pods[id] = qi.CheckPodIsAssigned(pod)
+	}
+	return
+}
+
+// oracleDefault (stream A; in stream B the default group is an observed quota and covered by oracle): the default group, which
+// is outside the model run, holds exactly the pods the glue is specified to have routed to it and not yet taken out, and its
+// request / used moved, since the case began, by exactly their amounts.  In particular: after migration + deletion it is back to
+// its previous figures.
+func (w *c01pWorld) oracleDefault() {
+	if w.fail || w.same {
+		return
+	}
+	fig, pods := w.defaultGroup()
+	for id := range pods {
+		if w.def[id] == nil {
+			w.bad("C01:default-group-membership", "pod %d is cached in the default group, but the glue should have removed / migrated it (or never put it there)", id)
+			return
+		}
+	}
+	for id := range w.def {
+		if _, in := pods[id]; !in {
+			w.bad("C01:default-group-membership", "pod %d should be held by the default group (quota unknown when it was delivered, not migrated yet), which does not cache it", id)
+			return
+		}
+	}
+	for k := 0; k < 2; k++ {
+		var want [4]int64
+		for id, pv := range w.defAcc {
+			r := pv.req[k]
+			want[2] += r
+			if pv.np {
+				want[3] += r
+			}
+			if pods[id] {
+				want[0] += r
+				if pv.np {
+					want[1] += r
+				}
+			}
+		}
+		for i, nm := range []string{"used", "non-preemptible used", "request", "non-preemptible request"} {
+			if got := fig[k][i] - w.base[k][i]; got != want[i] {
+				w.bad("C01:default-group-mismatch", "default group dim %d: %s moved by %d since the case began, its pods of this case sum to %d", k, nm, got, want[i])
+				return
+			}
+		}
+	}
+}
+
+// freshBuild feeds a NEW GroupQuotaManager the final objects only: the surviving quota objects parents first, then the pods
+// the snapshot qs lists, each with its last delivered object, into the quota place(n, id) (0: left out).  Assigned flags that
+// no object carries (reservations, pods that completed while assigned) are copied from the snapshot, as in the core harness.
+func (w *c01pWorld) freshBuild(qs map[int]*c01pObsQ, place func(n, id int) int) *core.GroupQuotaManager {
+	fresh := core.NewGroupQuotaManager(w.tree, false, w.pl.pluginArgs.SystemQuotaGroupMax, w.pl.pluginArgs.DefaultQuotaGroupMax)
+	queue := []int{1}
+	for len(queue) > 0 {
+		n := queue[0]
+		queue = queue[1:]
+		for _, c := range w.children(n) {
+			if c != w.dq {
+				_ = fresh.UpdateQuota(w.objs[c])
+			}
+			queue = append(queue, c)
+		}
+	}
+	var ids []int
+	for n := range qs {
+		ids = append(ids, n)
+	}
+	sort.Ints(ids)
+	for _, n := range ids {
+		var pids []int
+		for id := range qs[n].pods {
+			pids = append(pids, id)
+		}
+		sort.Ints(pids)
+		for _, id := range pids {
+			pv := w.pods[id]
+			to := n
+			if place != nil {
+				to = place(n, id)
+			}
+			if pv == nil || to == 0 {
+				continue
+			}
+			name := w.qname(to)
+			fresh.OnPodAdd(name, pv.obj)
+			want, have := qs[n].pods[id], false
+			if qi := fresh.GetQuotaInfoByName(name); qi != nil {
+				have = qi.CheckPodIsAssigned(pv.obj)
+			}
+			if want && !have {
+				fresh.ReservePod(name, pv.obj)
+			} else if !want && have {
+				fresh.UnreservePod(name, pv.obj)
+			}
+		}
+	}
+	return fresh
+}
+
+// freshCompare: the property's own differential oracle at plugin level - a fresh manager fed the final objects reports
+// identical figures for every quota and the root.
+func (w *c01pWorld) freshCompare() {
+	if w.fail {
+		return
+	}
+	root, qs := w.lastRoot, w.lastQs
+	if qs == nil {
+		root, qs = w.live()
+	}
+	fresh := w.freshBuild(qs, nil)
+	w.h.Tag("pl:fresh-compare")
+	froot, fqs := w.snapshot(fresh, fresh.GetQuotaSummaries(true))
+	if froot != root {
+		w.bad("C01:fresh-mismatch", "plugin level: root figures %v differ from a fresh manager fed the final objects %v", root, froot)
+		return
+	}
+	for n := range qs {
+		fq := fqs[n]
+		if fq == nil {
+			w.bad("C01:fresh-mismatch", "plugin level: quota %d missing in the fresh manager", n)
+			return
+		}
+		if fq.d != qs[n].d {
+			w.bad("C01:fresh-mismatch", "plugin level: quota %d: incremental %v, fresh manager fed the final objects %v", n, qs[n].d, fq.d)
+			return
+		}
+	}
+}
+
 func (w *c01pWorld) val(k, hi int) int64 {
 	if k == 0 {
 		return int64(w.r.Range(0, hi)) * 250
@@ -403,37 +736,357 @@ func (w *c01pWorld) parents(exclude int) []int {
 	return out
 }
 
+// opQuotaAdd: OnQuotaAdd of a new quota; name 0 = pick (an awaited name with probability 1/2).
+func (w *c01pWorld) opQuotaAdd(name int) {
+	r, h := w.r, w.h
+	if name == 0 {
+		if len(w.qids()) >= 6 {
+			return
+		}
+		if len(w.await) > 0 && r.Chance(1, 2) {
+			name = w.await[r.Intn(len(w.await))]
+		} else {
+			name = w.nextQ
+			w.nextQ++
+		}
+	}
+	w.dropAwait(name)
+	ps := w.parents(0)
+	sp := &c01pSpec{name: name, parent: ps[r.Intn(len(ps))], isParent: r.Chance(2, 5), lend: r.Chance(3, 5)}
+	w.genVals(sp)
+	obj := w.mkQuota(sp)
+	h.Tag("pl:quota-add")
+	w.opQuotaLine(sp)
+	w.specs[sp.name], w.objs[sp.name] = sp, obj
+	for id := range w.def {
+		if w.def[id].label == name {
+			h.Tag("pl:quota-add-awaited-by-pod")
+		}
+	}
+	if h.Guard(func() { w.pl.OnQuotaAdd(obj) }) {
+		h.Obs("panic")
+		return
+	}
+	w.observe()
+}
+
+// opPodAdd: OnPodAdd; force 1 / 2 = a pending / bound pod labelled with a quota that does not exist yet (a new awaited name),
+// force > 2 = a pod labelled with the awaited quota of that name.
+func (w *c01pWorld) opPodAdd(force int) int {
+	r, h := w.r, w.h
+	qids := w.qids()
+	pv := &c01pPV{id: w.nextP, np: r.Chance(1, 3), node: r.Chance(1, 4), term: r.Chance(1, 15), rv: 1}
+	w.nextP++
+	switch {
+	case force > 2: // a further pod awaiting the quota named force
+		pv.label = force
+	case force != 0:
+		pv.label, pv.node, pv.term = w.newAwait(), force == 2, false
+	case r.Chance(1, 10):
+		pv.label = 0
+	case r.Chance(1, 10):
+		pv.label = -1
+	case r.Chance(1, 7) && (w.canAwait() || len(w.await) > 0):
+		if len(w.await) > 0 && (!w.canAwait() || r.Chance(1, 3)) {
+			pv.label = w.await[r.Intn(len(w.await))] // several pods can wait for the same quota
+		} else {
+			pv.label = w.newAwait()
+		}
+	default:
+		pv.label = qids[r.Intn(len(qids))]
+	}
+	pv.req = [2]int64{w.val(0, 8), w.val(1, 8)}
+	w.mkPod(pv)
+	h.Tag("pl:pod-add")
+	if pv.label > 1 && w.specs[pv.label] == nil {
+		if pv.node && !pv.term {
+			h.Tag("pl:pod-add-before-quota-bound")
+		} else {
+			h.Tag("pl:pod-add-before-quota-pending")
+		}
+	}
+	switch q := w.res(pv); {
+	case q == 0:
+		h.Op("refresh 0")
+		h.Tag("pl:pod-add-default-tree")
+		w.def[pv.id], w.defAcc[pv.id] = pv, pv
+	case q == w.dq:
+		h.Op("padd %d %s", q, w.toks(pv))
+		h.Tag("pl:pod-add-default-group")
+		w.def[pv.id], w.defAcc[pv.id] = pv, pv
+	default:
+		h.Op("padd %d %s", q, w.toks(pv))
+		w.home[pv.id] = q
+	}
+	w.pods[pv.id] = pv
+	if h.Guard(func() { w.pl.OnPodAdd(pv.obj) }) {
+		h.Obs("panic")
+		return pv.id
+	}
+	w.observe()
+	return pv.id
+}
+
+func (w *c01pWorld) opPodUpdate(id int) {
+	r, h := w.r, w.h
+	qids := w.qids()
+	old := w.pods[id]
+	nv := *old
+	nv.rv = old.rv + 1
+	kind := r.Intn(10)
+	if !w.free {
+		// see the header: what must not happen to a pod the default group holds under an awaited label
+		switch {
+		case w.waiting(id):
+			if kind != 5 && kind != 7 {
+				kind = 9
+			}
+		case w.eligible(id) && w.same:
+			kind = 7
+		case w.eligible(id):
+			if kind == 5 || kind == 6 || kind == 8 {
+				kind = 9
+			}
+		case w.def[id] != nil:
+			if kind == 8 {
+				kind = 9
+			}
+		}
+	}
+	switch kind {
+	case 0:
+		k := r.Intn(2)
+		nv.req[k] = w.val(k, 8)
+	case 1:
+		nv.np = !nv.np
+	case 2, 3:
+		nv.node = true
+	case 4:
+		nv.term = true
+	case 5: // move to another quota of the case
+		nv.label = qids[r.Intn(len(qids))]
+	case 6: // label removed / unknown quota / back
+		nv.label = []int{0, -1, qids[r.Intn(len(qids))]}[r.Intn(3)]
+	case 7: // same resourceVersion: a resync, ignored by the plugin
+		nv.rv = old.rv
+		nv.req[0] = w.val(0, 8)
+	case 8: // relabelled with a quota that does not exist yet
+		if w.canAwait() {
+			nv.label = w.newAwait()
+		}
+	default: // nothing but the resourceVersion changes (status update)
+	}
+	w.mkPod(&nv)
+	ro, rn := w.res(old), w.res(&nv)
+	h.Tag("pl:pod-update")
+	if w.eligible(id) && nv.rv != old.rv {
+		h.Tag("pl:pod-update-between-quota-add-and-migration")
+	}
+	switch {
+	case nv.rv == old.rv:
+		h.Op("refresh 0")
+		h.Tag("pl:pod-update-same-rv")
+	case w.same: // one manager: OnPodUpdate(newQuota, oldQuota, newPod, oldPod), the default group being one of its quotas
+		h.Op("pupd %d %d %s %s", rn, ro, w.toks(&nv), w.toks(old))
+		if ro != rn {
+			if ro == w.dq {
+				delete(w.def, id)
+				delete(w.defAcc, id)
+				h.Tag("pl:pod-update-leaves-default-group")
+			} else if w.home[id] == ro {
+				w.home[id] = 0
+			}
+		}
+		if rn == w.dq {
+			if w.def[id] == nil {
+				w.def[id] = &nv
+				h.Tag("pl:pod-update-enters-default-group")
+			}
+			w.defAcc[id] = &nv
+		} else {
+			w.home[id] = rn
+		}
+	case ro != 0 && rn != 0:
+		h.Op("pupd %d %d %s %s", rn, ro, w.toks(&nv), w.toks(old))
+		w.home[id] = rn
+	case ro != 0: // cross-tree: OnPodDelete in the tree, OnPodAdd in the default manager
+		h.Op("pdel %d %s", ro, w.toks(old))
+		h.Tag("pl:pod-update-leaves-tree")
+		w.home[id] = 0
+		if w.def[id] == nil {
+			w.def[id], w.defAcc[id] = &nv, &nv
+		}
+	case rn != 0: // cross-tree: OnPodDelete in the default manager, OnPodAdd in the tree
+		h.Op("padd %d %s", rn, w.toks(&nv))
+		h.Tag("pl:pod-update-enters-tree")
+		delete(w.def, id)
+		delete(w.defAcc, id)
+		w.home[id] = rn
+	default: // OnPodUpdate inside the default manager
+		h.Op("refresh 0")
+		if w.def[id] == nil {
+			w.def[id] = &nv
+		}
+		w.defAcc[id] = &nv
+	}
+	if nv.rv != old.rv {
+		w.pods[nv.id] = &nv
+	}
+	if h.Guard(func() { w.pl.OnPodUpdate(old.obj, nv.obj) }) {
+		h.Obs("panic")
+		return
+	}
+	w.observe()
+}
+
+func (w *c01pWorld) opPodDelete(id int) {
+	r, h := w.r, w.h
+	pv := w.pods[id]
+	h.Tag("pl:pod-delete")
+	q := w.res(pv)
+	if q != 0 {
+		h.Op("pdel %d %s", q, w.toks(pv))
+	} else {
+		h.Op("refresh 0")
+	}
+	if q == w.dq { // OnPodDelete reaches the default group
+		if w.def[id] != nil && w.def[id].label > 1 {
+			h.Tag("pl:pod-delete-in-default-group-awaiting")
+		}
+		delete(w.def, id)
+		delete(w.defAcc, id)
+	} else if w.home[id] == q {
+		delete(w.home, id)
+	}
+	delete(w.pods, id)
+	var arg interface{} = pv.obj
+	if r.Chance(1, 3) {
+		arg = cache.DeletedFinalStateUnknown{Key: pv.obj.Name, Obj: pv.obj}
+	}
+	if h.Guard(func() { w.pl.OnPodDelete(arg) }) {
+		h.Obs("panic")
+		return
+	}
+	w.observe()
+}
+
+func (w *c01pWorld) opReserve(id int, un bool) {
+	h := w.h
+	pv := w.pods[id]
+	kind := "reserve"
+	if un {
+		kind = "unreserve"
+	}
+	h.Tag("pl:" + kind)
+	if w.def[id] != nil && w.def[id].label > 1 {
+		h.Tag("pl:" + kind + "-while-in-default-group-awaiting")
+	}
+	if q := w.res(pv); q != 0 {
+		h.Op("%s %d %s", kind, q, w.toks(pv))
+	} else {
+		h.Op("refresh 0")
+	}
+	if h.Guard(func() {
+		if un {
+			w.pl.Unreserve(context.TODO(), nil, pv.obj, "node-1")
+		} else {
+			w.pl.Reserve(context.TODO(), nil, pv.obj, "node-1")
+		}
+	}) {
+		h.Obs("panic")
+		return
+	}
+	w.observe()
+}
+
+// opMigrate calls the plugin's periodic migration once.  Specification (plugin_helper.go): every pod cached by the default
+// group whose CACHED object names a quota the plugin knows leaves the default group; if that quota lives in another manager
+// (stream A) that manager gets OnPodAdd(quota, cached object) (no effect when it already caches the pod), otherwise (stream B)
+// the default manager runs MigratePod(cached object, default, quota).  One call can move several pods (the order, a Go map
+// iteration, does not matter for the figures); the model driver wants one operation and one observation block per pod, so the
+// blocks between them - states the call never exposes - are read off fresh managers fed the final objects with the pods that
+// are moved later still left out (stream A) / still in the default group (stream B).  The block after the last one is the
+// live observation, as everywhere.
+func (w *c01pWorld) opMigrate() {
+	h := w.h
+	var ids, moved []int
+	for id := range w.def {
+		if w.eligible(id) {
+			ids = append(ids, id)
+		}
+	}
+	sort.Ints(ids)
+	for _, id := range ids {
+		d := w.def[id]
+		x := d.label
+		kind := "pending"
+		if live := w.pods[id]; live != nil && live.node && !live.term {
+			kind = "bound"
+		}
+		switch {
+		case w.same:
+			h.Op("migrate %d %d %s", w.dq, x, w.toks(d))
+			moved = append(moved, id)
+			h.Tag("pl:migrate-same-manager-" + kind)
+		case w.home[id] != x:
+			h.Op("padd %d %s", x, w.toks(d))
+			moved = append(moved, id)
+			h.Tag("pl:migrate-cross-tree-" + kind)
+		default:
+			h.Tag("pl:migrate-cross-tree-already-there")
+		}
+		w.home[id] = x
+		delete(w.def, id)
+		delete(w.defAcc, id)
+	}
+	if len(moved) == 0 {
+		h.Op("refresh 0")
+		if len(ids) == 0 {
+			h.Tag("pl:migrate-nothing")
+		}
+	}
+	h.Tag("pl:migrate-call")
+	if h.Guard(func() { w.pl.migrateDefaultQuotaGroupsPod() }) {
+		h.Obs("panic")
+		return
+	}
+	if len(moved) > 1 {
+		h.Tag("pl:migrate-several-pods-in-one-call")
+		_, qs := w.live()
+		for i := 1; i < len(moved); i++ {
+			later := map[int]bool{}
+			for _, id := range moved[i:] {
+				later[id] = true
+			}
+			fresh := w.freshBuild(qs, func(n, id int) int {
+				if later[id] {
+					return w.dq // 0 in stream A: not in this manager yet
+				}
+				return n
+			})
+			w.emit(w.snapshot(fresh, fresh.GetQuotaSummaries(true)))
+		}
+	}
+	w.observe()
+}
+
 func (w *c01pWorld) step() {
 	r, h := w.r, w.h
-	var qids []int
-	for n := range w.specs {
-		qids = append(qids, n)
+	qids := w.qids()
+	pids := w.pids()
+	if w.anyEligible() {
+		if r.Chance(1, 2) {
+			w.opMigrate()
+			return
+		}
+	} else if r.Chance(1, 40) {
+		w.opMigrate()
+		return
 	}
-	sort.Ints(qids)
-	var pids []int
-	for id := range w.pods {
-		pids = append(pids, id)
-	}
-	sort.Ints(pids)
 	x := r.Intn(100)
 	switch {
 	case x < 10 || len(qids) == 0: // OnQuotaAdd of a new quota
-		if len(qids) >= 6 {
-			return
-		}
-		ps := w.parents(0)
-		sp := &c01pSpec{name: w.nextQ, parent: ps[r.Intn(len(ps))], isParent: r.Chance(2, 5), lend: r.Chance(3, 5)}
-		w.nextQ++
-		w.genVals(sp)
-		obj := w.mkQuota(sp)
-		h.Tag("pl:quota-add")
-		w.opQuotaLine(sp)
-		w.specs[sp.name], w.objs[sp.name] = sp, obj
-		if h.Guard(func() { w.pl.OnQuotaAdd(obj) }) {
-			h.Obs("panic")
-			return
-		}
-		w.observe()
+		w.opQuotaAdd(0)
 	case x < 14: // OnQuotaAdd of a quota the plugin already knows (resync) with different content, or of a deleting object: ignored
 		n := qids[r.Intn(len(qids))]
 		sp := *w.specs[n]
@@ -484,11 +1137,16 @@ func (w *c01pWorld) step() {
 			return
 		}
 		w.observe()
-	case x < 36: // OnQuotaDelete of a childless quota that no alive pod names
+	case x < 36: // OnQuotaDelete of a childless quota that no alive pod names (nor any object the default group still caches)
 		var cands []int
 		for _, n := range qids {
 			busy := len(w.children(n)) > 0
 			for _, pv := range w.pods {
+				if pv.label == n {
+					busy = true
+				}
+			}
+			for _, pv := range w.def {
 				if pv.label == n {
 					busy = true
 				}
@@ -519,110 +1177,22 @@ func (w *c01pWorld) step() {
 		if len(pids) >= 8 {
 			return
 		}
-		pv := &c01pPV{id: w.nextP, np: r.Chance(1, 3), node: r.Chance(1, 4), term: r.Chance(1, 15), rv: 1}
-		w.nextP++
-		switch {
-		case r.Chance(1, 10):
-			pv.label = 0
-		case r.Chance(1, 10):
-			pv.label = -1
-		default:
-			pv.label = qids[r.Intn(len(qids))]
-		}
-		pv.req = [2]int64{w.val(0, 8), w.val(1, 8)}
-		w.mkPod(pv)
-		h.Tag("pl:pod-add")
-		if q := w.res(pv); q != 0 {
-			h.Op("padd %d %s", q, w.toks(pv))
-		} else {
-			h.Op("refresh 0")
-			h.Tag("pl:pod-add-default-tree")
-		}
-		w.pods[pv.id] = pv
-		if h.Guard(func() { w.pl.OnPodAdd(pv.obj) }) {
-			h.Obs("panic")
-			return
-		}
-		w.observe()
+		w.opPodAdd(0)
 	case x < 76: // OnPodUpdate
-		old := w.pods[pids[r.Intn(len(pids))]]
-		nv := *old
-		nv.rv = old.rv + 1
-		switch r.Intn(8) {
-		case 0:
-			k := r.Intn(2)
-			nv.req[k] = w.val(k, 8)
-		case 1:
-			nv.np = !nv.np
-		case 2, 3:
-			nv.node = true
-		case 4:
-			nv.term = true
-		case 5: // move to another quota of the tree
-			nv.label = qids[r.Intn(len(qids))]
-		case 6: // label removed / unknown quota / back
-			nv.label = []int{0, -1, qids[r.Intn(len(qids))]}[r.Intn(3)]
-		case 7: // same resourceVersion: a resync, ignored by the plugin
-			nv.rv = old.rv
-			nv.req[0] = w.val(0, 8)
+		w.opPodUpdate(pids[r.Intn(len(pids))])
+	case x < 84: // OnPodDelete (restricted: not between the creation of the pod's awaited quota and the migration)
+		var cands []int
+		for _, id := range pids {
+			if w.free || !w.eligible(id) {
+				cands = append(cands, id)
+			}
 		}
-		w.mkPod(&nv)
-		ro, rn := w.res(old), w.res(&nv)
-		h.Tag("pl:pod-update")
-		switch {
-		case nv.rv == old.rv:
-			h.Op("refresh 0")
-			h.Tag("pl:pod-update-same-rv")
-		case ro != 0 && rn != 0:
-			h.Op("pupd %d %d %s %s", rn, ro, w.toks(&nv), w.toks(old))
-		case ro != 0:
-			h.Op("pdel %d %s", ro, w.toks(old))
-			h.Tag("pl:pod-update-leaves-tree")
-		case rn != 0:
-			h.Op("padd %d %s", rn, w.toks(&nv))
-			h.Tag("pl:pod-update-enters-tree")
-		default:
-			h.Op("refresh 0")
-		}
-		if nv.rv != old.rv {
-			w.pods[nv.id] = &nv
-		}
-		if h.Guard(func() { w.pl.OnPodUpdate(old.obj, nv.obj) }) {
-			h.Obs("panic")
+		if len(cands) == 0 {
 			return
 		}
-		w.observe()
-	case x < 84: // OnPodDelete
-		pv := w.pods[pids[r.Intn(len(pids))]]
-		h.Tag("pl:pod-delete")
-		if q := w.res(pv); q != 0 {
-			h.Op("pdel %d %s", q, w.toks(pv))
-		} else {
-			h.Op("refresh 0")
-		}
-		delete(w.pods, pv.id)
-		var arg interface{} = pv.obj
-		if r.Chance(1, 3) {
-			arg = cache.DeletedFinalStateUnknown{Key: pv.obj.Name, Obj: pv.obj}
-		}
-		if h.Guard(func() { w.pl.OnPodDelete(arg) }) {
-			h.Obs("panic")
-			return
-		}
-		w.observe()
+		w.opPodDelete(cands[r.Intn(len(cands))])
 	case x < 94: // Reserve
-		pv := w.pods[pids[r.Intn(len(pids))]]
-		h.Tag("pl:reserve")
-		if q := w.res(pv); q != 0 {
-			h.Op("reserve %d %s", q, w.toks(pv))
-		} else {
-			h.Op("refresh 0")
-		}
-		if h.Guard(func() { w.pl.Reserve(context.TODO(), nil, pv.obj, "node-1") }) {
-			h.Obs("panic")
-			return
-		}
-		w.observe()
+		w.opReserve(pids[r.Intn(len(pids))], false)
 	default: // Unreserve (roll back a reservation of a pod that is not bound)
 		var cands []int
 		for _, id := range pids {
@@ -633,18 +1203,67 @@ func (w *c01pWorld) step() {
 		if len(cands) == 0 {
 			return
 		}
-		pv := w.pods[cands[r.Intn(len(cands))]]
-		h.Tag("pl:unreserve")
-		if q := w.res(pv); q != 0 {
-			h.Op("unreserve %d %s", q, w.toks(pv))
-		} else {
-			h.Op("refresh 0")
+		w.opReserve(cands[r.Intn(len(cands))], true)
+	}
+}
+
+// scripted: the migration scenario, deterministically: a pod (pending or bound) labelled with a quota that does not exist
+// yet, possibly reserved while the default group holds it, then OnQuotaAdd of that quota, then the plugin's migration.
+func (w *c01pWorld) scripted() int {
+	r := w.r
+	for i := r.Range(1, 2); i > 0; i-- {
+		w.opQuotaAdd(0)
+	}
+	id := w.opPodAdd(1 + r.Intn(2))
+	f := w.pods[id].label
+	for i := r.Intn(3); i > 0; i-- {
+		w.step()
+	}
+	if pv := w.pods[id]; pv != nil && w.waiting(id) && !pv.node && r.Chance(1, 3) {
+		w.opReserve(id, false)
+	}
+	if w.specs[f] == nil && r.Chance(1, 3) {
+		w.opPodAdd(f) // a second pod waiting for the same quota: one migration call moves both
+	}
+	if w.specs[f] == nil {
+		w.opQuotaAdd(f)
+	}
+	if r.Chance(1, 3) {
+		w.step()
+	}
+	w.opMigrate()
+	w.h.Tag("pl:scripted-migration")
+	return id
+}
+
+func (w *c01pWorld) cleanup() {
+	pl := w.pl
+	// leave nothing behind in the shared plugin
+	for _, pv := range w.pods {
+		pl.OnPodDelete(pv.obj)
+	}
+	prefix := fmt.Sprintf("vns%d/", w.idx)
+	if qi := pl.groupQuotaManager.GetQuotaInfoByName(extension.DefaultQuotaName); qi != nil {
+		for key, pod := range qi.GetPodCache() {
+			if strings.HasPrefix(key, prefix) {
+				pl.groupQuotaManager.OnPodDelete(extension.DefaultQuotaName, pod)
+			}
 		}
-		if h.Guard(func() { w.pl.Unreserve(context.TODO(), nil, pv.obj, "node-1") }) {
-			h.Obs("panic")
-			return
+	}
+	if w.same {
+		for len(w.qids()) > 0 {
+			for _, n := range w.qids() {
+				if len(w.children(n)) == 0 {
+					pl.OnQuotaDelete(w.objs[n])
+					delete(w.specs, n)
+					delete(w.objs, n)
+				}
+			}
 		}
-		w.observe()
+	}
+	fig, _ := w.defaultGroup()
+	if fig != w.base {
+		w.bad("C01:default-group-residue", "after every pod of the case was deleted the default group reports %v, before the case %v (used npUsed request npRequest per dimension)", fig, w.base)
 	}
 }
 
@@ -657,29 +1276,77 @@ func TestVerifC01Plugin(t *testing.T) {
 	suit := newPluginTestSuit(t, nil)
 	pl := suit.createPlugin(t).(*Plugin)
 	setLoglevel("0")
+	free := os.Getenv("VERIF_C01P_FREE") == "1"
 	n := h.N(150, 3000)
 	for idx := 0; idx < n; idx++ {
 		r := h.Begin(idx)
 		if r == nil {
 			continue
 		}
-		w := &c01pWorld{h: h, r: r, pl: pl, idx: idx, tree: fmt.Sprintf("vt%d", idx), specs: map[int]*c01pSpec{},
-			objs: map[int]*schedv1alpha1.ElasticQuota{}, pods: map[int]*c01pPV{}, nextQ: 2, nextP: 1}
+		w := &c01pWorld{h: h, r: r, pl: pl, idx: idx, free: free, specs: map[int]*c01pSpec{},
+			objs: map[int]*schedv1alpha1.ElasticQuota{}, pods: map[int]*c01pPV{}, def: map[int]*c01pPV{}, defAcc: map[int]*c01pPV{},
+			home: map[int]int{}, nextQ: 2, nextP: 1}
+		restore := func() {}
+		switch {
+		case idx%4 == 1: // B1
+			w.same = true
+			h.Tag("stream:B1-default-manager-no-tree-label")
+		case idx%8 == 3: // B2
+			w.same = true
+			restore = utilfeature.SetFeatureGateDuringTest(t, k8sfeature.DefaultMutableFeatureGate, koordfeatures.MultiQuotaTree, false)
+			if r.Bool() {
+				w.label = fmt.Sprintf("vt%d", idx)
+			}
+			h.Tag("stream:B2-default-manager-gate-off")
+		default: // A
+			w.tree = fmt.Sprintf("vt%d", idx)
+			w.label = w.tree
+			h.Tag("stream:A-own-tree")
+		}
 		h.Op("mode 1")
+		w.base, _ = w.defaultGroup()
+		if w.same {
+			w.dq, w.nextQ = 2, 3
+			sp := &c01pSpec{name: w.dq, parent: 1, lend: true, max: [2]int64{c01pDMax, c01pDMax}}
+			w.specs[w.dq] = sp
+			w.opQuotaLine(sp) // the model is told about koordinator-default-quota; nothing is called
+			w.observe()
+		}
 		nops := r.Range(20, 45)
+		mid := r.Range(5, nops-1)
+		target := 0
+		if idx%3 == 0 {
+			target = w.scripted()
+			nops -= 6
+		}
 		for i := 0; i < nops; i++ {
 			w.step()
+			if i == mid {
+				w.freshCompare()
+			}
 		}
+		if nops <= mid {
+			w.freshCompare()
+		}
+		if w.anyEligible() {
+			w.opMigrate()
+		}
+		if target != 0 && w.pods[target] != nil {
+			w.opPodDelete(target)
+		}
+		w.freshCompare()
 		if w.lim {
 			h.Nontrivial()
 		}
-		// leave nothing behind in the shared plugin
-		for _, pv := range w.pods {
-			pl.OnPodDelete(pv.obj)
-		}
+		w.cleanup()
+		restore()
 		h.End()
 	}
-	h.Close("plugin-level histories (20-45 calls of OnQuotaAdd/Update/Delete, OnPodAdd/Update/Delete, Reserve, Unreserve with API objects; " +
-		"quota label present / absent / unknown / moved, same-ResourceVersion resyncs, DeletedFinalStateUnknown, duplicate OnQuotaAdd); one quota tree per case in one shared plugin; " +
+	h.Close("plugin-level histories (20-45 calls of OnQuotaAdd/Update/Delete, OnPodAdd/Update/Delete, Reserve, Unreserve, migrateDefaultQuotaGroupsPod with API objects; " +
+		"quota label present / absent / unknown / moved / naming a quota that is created later, same-ResourceVersion resyncs, DeletedFinalStateUnknown, duplicate OnQuotaAdd) in one shared plugin; " +
+		"stream A (5/8): MultiQuotaTree on, one quota tree per case, default group checked by a Go oracle, migration = OnPodAdd of the object cached by the default group; " +
+		"streams B1 (1/4, no tree label) and B2 (1/8, MultiQuotaTree off): the case's quotas live in the default manager, koordinator-default-quota is an observed quota, migration = MigratePod(default -> X); " +
+		"every third case starts with the scripted scenario pod (pending | bound | reserved in the default group) before quota -> OnQuotaAdd -> migration -> ... -> delete; " +
+		"a fresh manager is fed the final objects in the middle and at the end of every case; " +
 		"non-trivial = some quota's request exceeded its max")
 }
